@@ -136,8 +136,8 @@ def worker(i, n):
     props = json.load(open(os.path.join(VERIF, "contracts", "properties.json")))
     idx = fn_index()
     ms = mutants(repo)
-    out = open(os.path.join(VERIF, "out", f"mutants-{i}.jsonl"), "w")
     os.makedirs(os.path.join(VERIF, "out"), exist_ok=True)
+    out = open(os.path.join(VERIF, "out", f"mutants-{i}.jsonl"), "w")
     for m in ms:
         if m["id"] % n != i:
             continue
